@@ -1,0 +1,87 @@
+//go:build verif
+
+package proxy
+
+// Verification export hooks for property C17 (initial / fallback server choice) — /verif/harness/cmd/c17.
+// Thin package-internal wrappers only (no logic): they build a connectedPlayer the way
+// forced_hosts_test.go does and forward to the unexported methods named in each comment.
+// Compiled only with `-tags verif`.
+
+import (
+	"net"
+
+	"go.minekube.com/common/minecraft/component"
+	"go.minekube.com/gate/pkg/edition/java/netmc"
+)
+
+// VerifC17Player lets the harness hold a *connectedPlayer (opaque outside the package).
+type VerifC17Player struct{ p *connectedPlayer }
+
+// VerifC17NewPlayer is the connectedPlayer literal of forced_hosts_test.go: deps (proxy + its config) and
+// a virtual host; conn may be nil when only nextServerToTry is driven.
+func VerifC17NewPlayer(px *Proxy, conn netmc.MinecraftConn, virtualHost net.Addr) *VerifC17Player {
+	return &VerifC17Player{p: &connectedPlayer{
+		MinecraftConn: conn,
+		sessionHandlerDeps: &sessionHandlerDeps{
+			proxy:          px,
+			registrar:      px,
+			configProvider: px,
+			eventMgr:       px.event,
+		},
+		virtualHost: virtualHost,
+	}}
+}
+
+// Next = connectedPlayer.nextServerToTry.
+func (v *VerifC17Player) Next(current RegisteredServer) RegisteredServer {
+	return v.p.nextServerToTry(current)
+}
+
+// VirtualHostname = connectedPlayer.getVirtualHostname.
+func (v *VerifC17Player) VirtualHostname() string { return v.p.getVirtualHostname() }
+
+// Cursor reads tryIndex and serversToTry under the player's lock.
+func (v *VerifC17Player) Cursor() (int, []string) {
+	v.p.mu.RLock()
+	defer v.p.mu.RUnlock()
+	return v.p.tryIndex, v.p.serversToTry
+}
+
+// verifC17Conn = newServerConnection's literal without the logger fields (nil stays nil).
+func (v *VerifC17Player) verifC17Conn(rs RegisteredServer) *serverConnection {
+	if rs == nil {
+		return nil
+	}
+	return &serverConnection{server: rs.(*registeredServer), player: v.p}
+}
+
+// SetConnected = connectedPlayer.setConnectedServer with a fresh connection object (what a completed join calls).
+func (v *VerifC17Player) SetConnected(rs RegisteredServer) {
+	v.p.setConnectedServer(v.verifC17Conn(rs))
+}
+
+// PromoteInFlight = setConnectedServer(in-flight connection object), as handleJoinGame does.
+func (v *VerifC17Player) PromoteInFlight() { v.p.setConnectedServer(v.p.connectionInFlight()) }
+
+// SetInFlight = connectedPlayer.setInFlightConnection.
+func (v *VerifC17Player) SetInFlight(rs RegisteredServer) {
+	v.p.setInFlightConnection(v.verifC17Conn(rs))
+}
+
+// ConnErr2 = connectedPlayer.handleConnectionErr2 (kick result selection).
+func (v *VerifC17Player) ConnErr2(rs RegisteredServer, kickReason, friendlyReason component.Component, safe bool) {
+	v.p.handleConnectionErr2(rs, kickReason, friendlyReason, safe)
+}
+
+// State reads the names of the connected and in-flight servers ("" = none).
+func (v *VerifC17Player) State() (connected, inFlight string) {
+	v.p.mu.RLock()
+	defer v.p.mu.RUnlock()
+	if v.p.connectedServer_ != nil {
+		connected = v.p.connectedServer_.server.info.Name()
+	}
+	if v.p.connInFlight != nil {
+		inFlight = v.p.connInFlight.server.info.Name()
+	}
+	return
+}
